@@ -15,6 +15,10 @@ def plan(tier, seed):
             ch("C04", F, "h_cat_stats_nulls", t, wc_lattice.FUN, env=envc)]
     jobs.append(ch("C04", "vf/pyshim/h_convert.py", "h_convert_intlike", t,
                    ["converted_types.convert (integer-like converted types; decoded statistics)"]))
+    jobs.append(ch("C04", "vf/pyshim/h_convert.py", "h_stat_text_decodes", t,
+                   ["converted_types.convert (UTF8 branch for bytes arrays: decoded text statistics)"]))
+    jobs.append(ch("C04", "vf/pyshim/h_convert.py", "h_writer_convert_ints", t,
+                   ["writer.convert (integer series, plain and nullable)", "writer.find_type"]))
     wc = wc_lattice.jobs("C04", tier)
     jobs += wc if tier == "thorough" else [j for j in wc if "null=1" in j["name"]][:5]
     try:
